@@ -199,7 +199,19 @@ def tlc_obs_collect(scratch, trace_path, invs, tag):
     mod = gen_obsrun(scratch, invs)
     r = run_tlc_with_extra(scratch, 'ObsRun', mod, cfg, trace_path, tag)
     if not r.get('ok'):
-        raise Inconclusive('TLC (observation pass) failed:\n' + r['out'][-4000:])
+        out = r['out']
+        i = out.find('Error:')
+        # (TLC prints its coverage statistics after an evaluation error: the message itself is at the first "Error:")
+        msg = out[i:i + 3000] if i >= 0 else out[-4000:]
+        keep = os.path.join(os.environ.get('VERIF_REPLAY_DIR') or os.path.join(vlib.VERIF, 'replays'), 'obs-failure-%s' % tag)
+        try:
+            os.makedirs(keep, exist_ok=True)
+            open(os.path.join(keep, 'tlc.out'), 'w').write(out)
+            shutil.copy(trace_path, os.path.join(keep, 'trace.ndjson'))
+            msg += '\n(TLC output and the trace chunk kept in %s)' % keep
+        except Exception:
+            pass
+        raise Inconclusive('TLC (observation pass) failed:\n' + msg)
     bad = []
     if 'VERIF-BAD' not in r['out']:
         raise Inconclusive('TLC (observation pass) printed no report:\n' + r['out'][-3000:])
